@@ -69,7 +69,7 @@ def run_family(fam, prop, tier, seed, d=None, replay_ops=None):
         args += fam.get("replay_args", ["-n", 0])
     else:
         args += fam["exec_args"](tier, seed)
-    summ = vlib.vexec(binary, args, timeout=fam.get("exec_timeout", 3000))
+    summ = vlib.vexec(binary, args, timeout=fam.get("exec_timeout", 3000), env={"GORACE": "exitcode=0"} if race else None)
     res.summary = summ
     res.samples = summ.get("samples", [])[:6]
     if race and "DATA RACE" in summ.get("_stderr", ""):
@@ -610,7 +610,29 @@ CODEC = dict(
                  "of a structured, TLC-enumerated mutation space plus random inputs (DESIGN.md section 6)"],
 )
 
-FAMILIES = {"C01": MPT, "C02": MPT, "C14": MPT, "C06": SC, "C07": SC, "C08": C08, "C03": ROUNDS, "C04": ROUNDS, "C05": ROUNDS, "C17": SYNC, "C16": C16, "C09": WMPT, "C11": WMPT, "C13": WMPT, "C10": PROOF, "C12": WPATH, "C15": CODEC}
+# ----------------------------------------------------------------------------- family: logring (C20)
+
+LOGRING = dict(
+    name="logring", component="logring", trace_module="LogRingTrace", trace_cfg="LogRingTrace.cfg", race=True,
+    design={"quick": [("LogRing", "LogRing_MC.cfg")], "thorough": [("LogRing", "LogRing_MC.cfg")]},
+    gen={"quick": [dict(module="LogRing", cfg="LogRing_gen.cfg", workers=4)],
+         "thorough": [dict(module="LogRing", cfg="LogRing_gen5.cfg", workers=8, timeout=3000)]},
+    exec_args=lambda tier, seed: (["-n", 150, "-nconc", 40] if tier == "quick" else ["-n", 3000, "-nconc", 1500]),
+    flags={"C20": {"snapshot", "concsnapshot", "panic", "race", "harness", "unknown-op"}},
+    distinct=lambda s: s.get("distinct_signatures", 0),
+    rule="histories = (a) every behaviour of LogRing.tla of 4 (thorough: 5) steps - writes of runs of 1/2/1023/1500 entries through "
+         "the root logger and loggers derived at different times, derivations, snapshots - emitted by TLC (totals below, at and far "
+         "above the capacity 1024); (b) seeded random sequential histories; (c) 2-8 goroutines writing unique messages through root or "
+         "derived loggers concurrently with readers, race detector on; every snapshot is compared by TLC with the specification "
+         "(sequential: exactly the last min(total,1024) entries newest first; concurrent: duplicate-free, right length, per-goroutine "
+         "newest-first suffixes); distinct_nontrivial = distinct operation-kind signatures",
+    summary_keys=["entries_written", "concurrent_runs", "panics", "go_histories"],
+    ops_of=lambda ev: dict(ops=[dict(op=e["op"], lg=e.get("lg", 0), n=e.get("n", 0)) for e in ev if e["op"] in ("write", "derive", "snapshot")]),
+    assumptions=["the Go race detector decides the 'no data race' clause",
+                 "entries are written directly through zapcore.Core.Write of the root core and of cores returned by With"],
+)
+
+FAMILIES = {"C01": MPT, "C02": MPT, "C14": MPT, "C06": SC, "C07": SC, "C08": C08, "C03": ROUNDS, "C04": ROUNDS, "C05": ROUNDS, "C17": SYNC, "C16": C16, "C09": WMPT, "C11": WMPT, "C13": WMPT, "C10": PROOF, "C12": WPATH, "C15": CODEC, "C20": LOGRING}
 PROPS = dict(FAMILIES)
 
 
